@@ -281,7 +281,9 @@ func genDeps(r *core.Rand, W int, netT int64, windows int, bmtp []int64, illForm
 }
 
 func (P) Generate(g *core.Gen) {
-	r := g.R
+	// core.NewRand(seed) streams of adjacent seeds are one-draw shifts of each other; fork once so
+	// that every seed gets an unrelated stream.
+	r := g.R.Fork()
 	for i := 0; i < g.N(2500, 120000); i++ {
 		W := int(r.Pick(2, 3, 3, 4, 4, 5, 6, 8, 10))
 		excluded := ""
@@ -381,12 +383,27 @@ func (P) Generate(g *core.Gen) {
 			sort.Sort(sort.Reverse(sort.IntSlice(qnodes)))
 		}
 		focus := r.Intn(len(deps))
+		// warning bits worth asking about: the deployments' own bits (expected while Started/LockedIn,
+		// unknown before/after) and the stray bits some blocks carry
+		var warnBits []int
+		for _, d := range deps {
+			if d.bit < 29 {
+				warnBits = append(warnBits, d.bit)
+			}
+		}
+		warnBits = append(warnBits, r.Intn(29))
 		for _, qn := range qnodes {
 			id := focus
 			if r.Chance(1, 3) {
 				id = r.Intn(len(deps))
 			}
-			switch r.Intn(12) {
+			switch r.Intn(13) {
+			case 12:
+				wb := r.Intn(29)
+				if r.Chance(2, 3) {
+					wb = warnBits[r.Intn(len(warnBits))]
+				}
+				qs = append(qs, fmt.Sprintf("w%d@%d", wb, qn))
 			case 0, 1, 2, 3, 4:
 				qs = append(qs, fmt.Sprintf("d%d@%d", id, qn))
 			case 5, 6:
@@ -396,12 +413,16 @@ func (P) Generate(g *core.Gen) {
 			case 8, 9:
 				qs = append(qs, fmt.Sprintf("v@%d", qn))
 			case 10:
-				qs = append(qs, fmt.Sprintf("c%d", id))
+				if excluded == "" {
+					qs = append(qs, fmt.Sprintf("c%d", id))
+				}
 			case 11:
 				qs = append(qs, fmt.Sprintf("d%d@%d", 7+r.Intn(3), qn)) // unknown deployment id
 			}
 		}
-		qs = append(qs, fmt.Sprintf("c%d", focus))
+		if excluded == "" {
+			qs = append(qs, fmt.Sprintf("c%d", focus))
+		}
 		class := "linear"
 		if forks > 0 {
 			class = "forked"
@@ -420,7 +441,7 @@ func (P) Generate(g *core.Gen) {
 // genShipped: the shipped deployments of each network (real bit/start/end/min height/threshold),
 // on the two networks with a small window, timestamps straddling their start/end times.
 func genShipped(g *core.Gen) {
-	r := g.R
+	r := g.R.Fork()
 	for i := 0; i < g.N(12, 300); i++ {
 		name := []string{"reg", "sim", "main", "test3", "test4", "sig"}[i%6]
 		p := netParams()[name]
